@@ -48,8 +48,10 @@ ASSUMPTIONS = [
     'After a crash a follow-up call may raise (accepted, counted in distinct_outcomes); it must never return '
     'anything but a Specification with the uncached behaviour.',
     'Quick tier: option combinations are the one-deviation set {ber, uper, ber+numeric, ber+adb, uper+numeric}; '
-    'crash points of the large (value file) population exclude the pwrite64 class; damage uses stride 16 outside '
-    'the stored pickles of the small cache.',
+    'crash points: every state-changing syscall of the population of an empty cache with the small sources (the '
+    'large value-file population and the populated-cache scenarios are thorough only); damage: every 4th byte of '
+    'the first stored pickle and every 64th byte elsewhere in cache.db of the small cache, every 128th byte of '
+    'the value file of the large one, plus the truncations.',
 ]
 
 OPTS_FULL = [(c, ne, adb) for c in ('ber', 'uper') for ne in (False, True) for adb in (False, True)]
@@ -62,9 +64,8 @@ EDIT = {'edit': True}
 def tier_cfg(tier):
     if tier == 'quick':
         return {'H': 3, 'opts': OPTS_QUICK,
-                'crash': [('empty-small', None), ('empty-big', ('pwrite64',))],
-                'damage': [('small', 'db', 'value1+stride16', 16), ('big', 'val', 'stride32', 6),
-                           ('big', 'db', 'stride32-nokey', 3)]}
+                'crash': [('empty-small', None)],
+                'damage': [('small', 'db', 'value1s4+stride64', 8), ('big', 'val', 'stride128', 2)]}
     return {'H': 3, 'opts': OPTS_FULL, 'H_reduced': 4,
             'crash': [('empty-small', None), ('empty-big', None), ('populated-small', None), ('populated-big', None)],
             'damage': [('small', 'db', 'stride1', 96), ('big', 'val', 'stride1', 64), ('big', 'db', 'stride2-nokey', 48),
@@ -564,6 +565,10 @@ def damage_plan(base, scn, filekind, mode):
     dense = set()            # offsets enumerated regardless of the stride
     if 'values' in mode:
         dense = set(region)
+    elif re.search(r'value1s(\d+)', mode):
+        # every k-th byte of the first stored pickle
+        k = int(re.search(r'value1s(\d+)', mode).group(1))
+        dense = {o for i, o in enumerate(sorted(first_region)) if i % k == 0}
     elif 'value1' in mode:
         dense = set(first_region)
     cases = []
